@@ -105,6 +105,8 @@ def index_in_bounds(idx, cont, facts, prog, func):
             lower_ok = any(a == base and ((op == '!=' and b == '0' and k == 1) or (op == '>=' and b.isdigit() and int(b) >= k) or
                                           (op == '>' and b.isdigit() and int(b) >= k - 1)) for (_, a, op, b) in B)
             upper_ok = any(a == base and op == '<' and b == size for (_, a, op, b) in B)
+            if not lower_ok and _loop_starts_at(func, base, k):
+                lower_ok = True     # for (i = L; ...; ++i) with L >= k and i never decreased
             al2 = _alias_size_minus(func, base)
             if al2 is not None and size_at_least(al2 + k):
                 return True, 'index is size() - %d and size() >= %d' % (al2 + k, al2 + k)
@@ -129,6 +131,41 @@ def index_in_bounds(idx, cont, facts, prog, func):
     if ok is not None:
         return ok
     return None, 'index expression outside the modelled subset'
+
+
+def _loop_starts_at(func, path, k):
+    """path names the control variable of a for loop that starts at a literal >= k and is only
+    ever incremented inside the loop."""
+    m = re.match(r'^#(0x[0-9a-f]+):', path or '')
+    if not m or func.body is None:
+        return False
+    vid = m.group(1)
+    for lp in walk(func.body):
+        if lp.get('kind') != 'ForStmt':
+            continue
+        c = lp.get('inner', [])
+        if not c:
+            continue
+        decl = None
+        for x in walk(c[0]):
+            if x.get('kind') == 'VarDecl' and x.get('id') == vid:
+                decl = x
+        if decl is None:
+            continue
+        init = [y for y in children(decl) if not y['kind'].endswith('Attr')]
+        lit = literal_value(strip(init[-1], explicit=True)) if init else None
+        if not isinstance(lit, int) or isinstance(lit, bool) or lit < k:
+            return False
+        for x in walk(lp):
+            kk = x.get('kind')
+            if kk == 'UnaryOperator' and x.get('opcode') == '--' and \
+                    (strip(children(x)[0]).get('referencedDecl') or {}).get('id') == vid:
+                return False
+            if kk in ('BinaryOperator', 'CompoundAssignOperator') and (x.get('opcode') or '') in ('=', '-=', '*=', '/=') and \
+                    (strip(children(x)[0]).get('referencedDecl') or {}).get('id') == vid:
+                return False
+        return True
+    return False
 
 
 def _alias_size_minus(func, path):
